@@ -204,6 +204,7 @@ type lkEvent struct {
 	level   int8
 	acq     bool
 	defer_  bool
+	go_     bool // with defer_: the call is started with `go` (runs with no lock held)
 	acc     Access
 	callee  *FuncInfo
 	lit     *FuncInfo
@@ -297,11 +298,11 @@ func (a *lockAnalysis) eventsOf1(f *FuncInfo, n ast.Node) []lkEvent {
 				}
 				if fn, ok := obj.(*types.Func); ok {
 					if ci := a.p.FuncOf(fn); ci != nil && a.inSet[ci] {
-						evs = append(evs, lkEvent{pos: x.End(), kind: 2, callee: ci, defer_: inDefer || inGo})
+						evs = append(evs, lkEvent{pos: x.End(), kind: 2, callee: ci, defer_: inDefer || inGo, go_: inGo})
 					}
 				} else if v, ok := obj.(*types.Var); ok {
 					if li := a.litOfVar[v]; li != nil {
-						evs = append(evs, lkEvent{pos: x.End(), kind: 2, callee: li, defer_: inDefer || inGo})
+						evs = append(evs, lkEvent{pos: x.End(), kind: 2, callee: li, defer_: inDefer || inGo, go_: inGo})
 					}
 				}
 				// literal arguments to synchronous callees
@@ -387,18 +388,23 @@ func (a *lockAnalysis) analyseFunc(f *FuncInfo, entry LState) {
 						a.res.Accesses = append(a.res.Accesses, acc)
 					}
 				case 2:
+					// go calls run with no lock held. A deferred call runs at function exit, before the
+					// deferred unlocks that were registered earlier (LIFO): it holds exactly the locks that
+					// are held now and whose release is already deferred.
+					cst := st.clone()
 					if ev.defer_ {
-						// deferred / go calls: callee runs with unknown (go: none) state
-						a.callIn[ev.callee] = append(a.callIn[ev.callee], LState{})
-					} else {
-						a.callIn[ev.callee] = append(a.callIn[ev.callee], st.clone())
+						cst = LState{}
+						if !ev.go_ {
+							for mu, lvl := range st {
+								if def[mu] {
+									cst[mu] = lvl
+								}
+							}
+						}
 					}
+					a.callIn[ev.callee] = append(a.callIn[ev.callee], cst.clone())
 					if record {
 						a.res.CallEdges++
-						cst := st.clone()
-						if ev.defer_ {
-							cst = LState{}
-						}
 						a.res.CallIns[ev.callee] = append(a.res.CallIns[ev.callee], CallIn{Caller: f, State: cst, Pos: ev.pos})
 					}
 				case 3:
